@@ -127,6 +127,7 @@ void cloneCheck(NifFile& src, NiShape* srcShape, NifFile& dst, bool sameModel, c
 			if (nameCount[b] > 1) { R_stat("shapes_with_ambiguous_bone_names_skipped"); return; }
 		}
 	}
+	std::vector<std::pair<NiObject*, NiObject*>> allPairs;   // (source block, cloned block) over all repetitions
 	for (int r = 0; r < reps; r++) {
 		R_eval();
 		std::string cname = srcName + "_clone" + std::to_string(r);
@@ -169,6 +170,7 @@ void cloneCheck(NifFile& src, NiShape* srcShape, NifFile& dst, bool sameModel, c
 			if (!iso(gs, ta, gd, tb, false, seen, err, cls, blocks, ta, tb)) { R_viol("clone", cls, w + ": " + err); return; }
 		}
 		R_stat("cloned_blocks_compared", blocks);
+		for (auto& pr : seen) allPairs.push_back(pr);
 		// accessor level: geometry, shader, textures, skin
 		auto recDst = shapeRecord(dst, cname);
 		{
@@ -209,6 +211,38 @@ void cloneCheck(NifFile& src, NiShape* srcShape, NifFile& dst, bool sameModel, c
 		NifFile cp(src);
 		std::string after = saveNif(cp, true);
 		if (after != srcBefore) { FileDiff d = diffFiles(srcBefore, after, vclass); R_viol("clone", "source-modified/" + d.site, what + ": the source model changed; " + d.detail); return; }
+	}
+	// what the two models *write* for a source block and for its clone (the graph snapshots above serialise clones of the blocks, so a field
+	// the copy constructor loses is lost on both sides there): payloads of the real saves, reference fields and string indices masked
+	if (!sameModel) {
+		R_phase("written-payloads");
+		auto written = [&](NifFile& f) {
+			std::map<NiObject*, std::string> m;
+			SaveTrace tr;
+			std::string by = saveTraced(f, true, tr);
+			for (size_t i = 0; i < tr.blocks.size(); i++) {
+				size_t b0 = tr.blocks[i].start, b1 = i + 1 < tr.blocks.size() ? tr.blocks[i + 1].start : tr.endPos;
+				std::string p = by.substr(b0, b1 - b0), tail;
+				for (auto& r : tr.blocks[i].refs) if ((size_t)r.off + 4 <= p.size()) memset(&p[(size_t)r.off], 0xEE, 4);
+				for (auto& st : tr.blocks[i].strs) { if ((size_t)st.off + 4 <= p.size() && f.GetHeader().GetVersion().File() >= V20_1_0_3) memset(&p[(size_t)st.off], 0xDD, 4); tail += "|" + st.text; }
+				m[tr.blocks[i].obj] = p + tail;
+			}
+			return m;
+		};
+		auto ws = written(src), wd = written(dst);
+		for (auto& [a, b] : allPairs) {
+			auto ia = ws.find(a), ib = wd.find(b);
+			if (ia == ws.end() || ib == wd.end()) continue;
+			if (dynamic_cast<NiBoneContainer*>(a) || dynamic_cast<NiShape*>(a)) continue;
+			if (modelSpaceStripped && (dynamic_cast<NiGeometryData*>(a) || dynamic_cast<NiSkinPartition*>(a))) continue;
+			R_stat("written_payloads_compared");
+			if (ia->second != ib->second) {
+				size_t d = 0;
+				while (d < ia->second.size() && d < ib->second.size() && ia->second[d] == ib->second[d]) d++;
+				R_viol("clone", std::string("written-payload/") + a->GetBlockName(), what + fmt(": the destination writes the cloned %s differently from how the source model writes the original (first difference at payload offset %zu, %zu vs %zu bytes)", a->GetBlockName(), d, ia->second.size(), ib->second.size()));
+				return;
+			}
+		}
 	}
 	// destination saves and reloads with the clones intact
 	R_phase("save+reload");
@@ -279,7 +313,8 @@ void init() {
 		ApiOpts ao;
 		ao.segments = i % 2 == 0;
 		ao.partitions = i % 3 == 0;
-		ao.texturing = (i / 6) % 2 == 1;   // every second OB / FO3 model: NiTexturingProperty with source textures
+		ao.texturing = (i / 6) % 2 == 1;
+		ao.collisionVolumes = i % 3 == 1;   // every second OB / FO3 model: NiTexturingProperty with source textures
 		ao.modelSpace = (i % 6 == 2 || i % 6 == 3) && (i / 6) % 2 == 0;   // every second SK / SSE model
 		ApiModel m = buildApiModel(mix(g_cfg.seed, 0xC14A00 + (uint64_t)i), i, &ao);
 		if (m.ok) g_models.push_back({"api:" + m.desc, m.bytes});
